@@ -1,3 +1,49 @@
-(* iter_driver.ml - iterator ops glue (filled in with the Index model) *)
-type t = unit
-let exec _ _ _ _ (_ : string array) : string = "err iter-not-built"
+(* iter_driver.ml — iterator ops ("E it...") on the extracted Index model.  Glue only. *)
+open Model
+open Util
+
+type t = dbit
+
+(* set by the engine driver from the last "open" line: index type (1 btree, 2 skip list, 3 hash map)
+   and the requested shard count *)
+let kind = ref 1
+let shards = ref 1
+
+let rec nat_of_int (i : int) : nat = if i <= 0 then O else S (nat_of_int (i - 1))
+
+let next_pow2 (n : int) : int =
+  let rec go p = if p >= n || p >= 1024 then p else go (p * 2) in
+  if n <= 1 then 1 else go 1
+
+(* the assignment of keys to shards: any function will do (theorem C10 holds for every one); the
+   implementation uses xxhash *)
+let shf (k : n list) : nat =
+  nat_of_int (List.fold_left (fun a b -> (a * 31 + int_of_n b) land 0xff) 7 k)
+
+let kind_of = function 1 -> KBTree | 2 -> KSkipList | _ -> KHashMap
+
+let obs get_db set_db (it : dbit) : string =
+  if not (di_valid it) then "v=0" else
+  match di_cur it with
+  | Some (k, p) ->
+    let ((d, r), _) = db_read (get_db ()) p in
+    set_db d;
+    "v=1 k=" ^ obs_bytes k ^ " val=" ^ (match r with Inl v -> obs_bytes v | Inr _ -> "err")
+  | None -> "v=1 k=?"
+
+let exec get_db set_db get_it set_it (f : string array) : string =
+  let the_it () = match get_it () with Some i -> i | None -> failwith "no iterator" in
+  match f.(1) with
+  | "itnew" ->
+    let rev = f.(2) = "1" in
+    let prefix = tok_bytes f.(3) in
+    let d = get_db () in
+    let n = next_pow2 !shards in
+    let it = di_new (kind_of !kind) rev prefix (shards_of shf (nat_of_int n) rev d.d_index) in
+    set_it (Some it); obs get_db set_db it
+  | "itrewind" -> let it = di_rewind (the_it ()) in set_it (Some it); obs get_db set_db it
+  | "itseek" -> let it = di_seek (the_it ()) (tok_bytes f.(2)) in set_it (Some it); obs get_db set_db it
+  | "itnext" -> let it = di_next (the_it ()) in set_it (Some it); obs get_db set_db it
+  | "itobs" -> obs get_db set_db (the_it ())
+  | "itclose" -> set_it None; "ok"
+  | op -> "err unknown-op-" ^ op
